@@ -30,7 +30,7 @@ RETURNS_LIVE_OK = {"grammar_info": "documented configuration handle (O2)", "gram
 def run(ctx, ss):
     from .c03 import c03_2
     from .c05 import c05_2
-    for r, f in (("C08.1", c08_1), ("C08.2", c08_2), ("C08.3", c08_3), ("C08.5", c08_5), ("C08.6", c08_6), ("C08.7", c08_7)):
+    for r, f in (("C08.1", c08_1), ("C08.2", c08_2), ("C08.3", c08_3), ("C08.3", c08_copy_guard), ("C08.5", c08_5), ("C08.6", c08_6), ("C08.7", c08_7)):
         ctx.guard(r, f, ss)
     ctx.guard("C08.4", lambda c, s: c03_2(c, s, rule="C08.4"), ss)
     ctx.guard("C08.4", lambda c, s: c05_2(c, s, rule="C08.4"), ss)
@@ -184,6 +184,27 @@ def c08_5(ctx, ss):
                                           "the table list is rebuilt from the newly parsed tree" if ok else "the table list is not rebuilt from the newly parsed tree (e.g. appended to the old one)")
 
 
+def c08_copy_guard(ctx, ss):
+    ff, flow = fn(ss, DEC, "DecFileParser.parse")
+    calls = [c for c in pf.calls_in(ff.node) if txt(c.func) == "self._add_decays_to_be_copied"]
+    k = ckey(ff, None, "copy-step")
+    if not calls:
+        ctx.violation("C08.3", k, where(ff, ff.node), "parse() never creates the CopyDecay tables")
+        return
+    from ..core import guards
+    for c in calls:
+        conds = [(txt(flow.expand(e)), pol) for kind, e, pol in guards.path_conditions(ff.node, stmt_of(ff, c)) if kind == "if"]
+        ok = conds in ([], [("self.dict_decays2copy()", True)], [("len(self.dict_decays2copy()) > 0", True)], [("bool(self.dict_decays2copy())", True)])
+        (ctx.holds if ok else ctx.violation)("C08.3", k, where(ff, c), "the copy step runs whenever the file has CopyDecay statements" if ok
+                                              else f"the copy step runs under {conds}: CopyDecay statements can be ignored")
+    # every CopyDecay statement is honoured inside the step
+    g, gflow = fn(ss, DEC, "DecFileParser._add_decays_to_be_copied")
+    loops = [n for n in pf.walk_no_nested(g.node) if isinstance(n, ast.For) and any(txt(x.func) in ("copy.deepcopy", "deepcopy") for x in pf.calls_in(n))]
+    okl = len(loops) == 1 and txt(gflow.expand(loops[0].iter)) == "self.dict_decays2copy().items()" and not any(isinstance(x, (ast.Break, ast.Continue)) for x in ast.walk(loops[0]))
+    (ctx.holds if okl else ctx.violation)("C08.3", ckey(g, None, "all-statements"), where(g, loops[0] if loops else g.node),
+                                          "every CopyDecay statement is processed" if okl else "not every CopyDecay statement is processed")
+
+
 def c08_6(ctx, ss):
     ef = effects(ss)
     cg = callgraph(ss)
@@ -244,7 +265,7 @@ def c08_7(ctx, ss):
             n += 1
             from ..core.defuse import flow_of
             fl = flow_of(ss, ff)
-            bad = [r for r in returns(ff) if r.value is not None and not _immutable(r.value)]
+            bad = [r for r in returns(ff) if r.value is not None and not _immutable(fl.expand(r.value), ff.node.name)]
             kk = ckey(ff, None, "cached-immutable")
             if bad:
                 ctx.violation("C08.7", kk, where(ff, bad[0]), f"cached function {ff.qualname} returns `{txt(bad[0].value)[:60]}`, a possibly mutable object shared between calls")
@@ -253,9 +274,15 @@ def c08_7(ctx, ss):
     ctx.count("cached_functions", n)
 
 
-def _immutable(e: ast.AST) -> bool:
+def _immutable(e: ast.AST, self_name: str = "") -> bool:
     if isinstance(e, (ast.Constant, ast.JoinedStr)):
         return True
+    if isinstance(e, ast.IfExp):
+        return _immutable(e.body, self_name) and _immutable(e.orelse, self_name)
+    if isinstance(e, ast.Call) and isinstance(e.func, ast.Name) and e.func.id == "__phi__":
+        return all(_immutable(a, self_name) for a in e.args)
+    if isinstance(e, ast.Call) and isinstance(e.func, ast.Name) and e.func.id == self_name:
+        return True     # recursion: same (immutable) result type
     if isinstance(e, ast.Attribute) and e.attr in ("evtgen_name", "name", "pdg_name"):
         return True
     if isinstance(e, ast.Subscript):
